@@ -185,7 +185,7 @@ def r3_anchoring(ctx):
     b = ('call', RE + 'base_patterns', (v0,))
     nb = T.typed(('len', b), 'usize')
     for cfg in ('dev', 'rel'):
-        an = analyse(ctx, cfg, CI, [], uninterpreted=lambda p: p.startswith('regular_expressions::'))
+        an = analyse(ctx, cfg, CI, [], uninterpreted=lambda p: p.startswith('regular_expressions::'), _exact_casts=[])
         ip, fn = an.ip, an.fn
         ntrue = 0
         kinds = set()
@@ -201,6 +201,29 @@ def r3_anchoring(ctx):
                     atoms.append((pos, g[1]))
                 if pos and g[0] == 'call' and g[1] in (RE + 'rigid_prefix_match', RE + 'rigid_suffix_match'):
                     matched[(g[1].rsplit('_', 2)[1], g[2][2])] = (g[2][0], g[2][1])
+                if pos and g[0] == 'call' and g[1] == RE + 'rigid_match_at':
+                    # the same comparison written in place: rigid_match_at(char_sets_of_pattern(v[x.start..x.end]), u, at)
+                    # with at = 0 (prefix) or at = len(u) - length of the pattern (suffix)
+                    sets_, ua_, at_ = g[2]
+                    if sets_[0] == 'call' and sets_[1] == RE + 'char_sets_of_pattern' and sets_[2][0][0] == 'slice':
+                        sl = sets_[2][0]
+                        # v may have been cut at the front by k elements first: the slice is then a1[k + x.start .. k + x.end]
+                        x_, va_ = None, sl[1]
+                        for t_ in T.subterms(sl[2]):
+                            if t_[0] == 'fld' and t_[2] == 'start':
+                                k_ = T.mk_sub(sl[2], T.typed(t_, 'usize'))
+                                if T.mk_sub(sl[3], T.typed(('fld', t_[1], 'end'), 'usize')) == k_ and t_ not in list(T.subterms(k_)):
+                                    x_ = t_[1]
+                                    if k_ != I(0):
+                                        va_ = ('slice', sl[1], k_, T.typed(('len', sl[1]), 'usize'))
+                        if x_ is not None:
+                            sl = (sl[0], va_, sl[2], sl[3])
+                            lu = T.typed(('len', ua_), 'usize')
+                            plen_ = T.typed(('call', RE + 'BasePattern::len', (x_,)), 'usize')
+                            if at_ == I(0):
+                                matched[('prefix', x_)] = (ua_, sl[1])
+                            elif at_ in (T.mk_sub(lu, plen_), T.mk_sub(lu, T.typed(('len', sets_), 'usize'))) or ip.entails(st, eq(at_, T.mk_sub(lu, plen_))) or ip.entails(st, eq(at_, T.mk_sub(lu, T.typed(('len', sets_), 'usize')))):
+                                matched[('suffix', x_)] = (ua_, sl[1])
             first = [(pos, x) for pos, x in atoms if x[0] == 'elem' and x[2] == I(0)]
             last = [(pos, x) for pos, x in atoms if x[0] == 'elem' and x[2] == T.mk_sub(T.typed(('len', x[1]), 'usize'), I(1))]
             other = [x for pos, x in atoms if (pos, x) not in first and (pos, x) not in last]
